@@ -177,6 +177,47 @@ func matchRenamed(pkgs []*packages.Package, ref map[string]refFn) []renamePair {
 	return out
 }
 
+// nameImplicitImports writes out the package name of every import whose name differs from the last element of its
+// path (`import "github.com/mochi-mqtt/server/v2"` declares mqtt); returns the changed files.
+func nameImplicitImports(pkgs []*packages.Package) map[string][]byte {
+	out := map[string][]byte{}
+	for _, p := range pkgs {
+		if !isModPkg(p.PkgPath) || p.TypesInfo == nil {
+			continue
+		}
+		for i, f := range p.Syntax {
+			n := 0
+			for _, spec := range f.Imports {
+				if spec.Name != nil {
+					continue
+				}
+				pn, ok := p.TypesInfo.Implicits[spec].(*types.PkgName)
+				if !ok {
+					continue
+				}
+				path := strings.Trim(spec.Path.Value, "\"`")
+				last := path
+				if j := strings.LastIndexByte(path, '/'); j >= 0 {
+					last = path[j+1:]
+				}
+				if pn.Imported().Name() != last {
+					spec.Name = ast.NewIdent(pn.Imported().Name())
+					n++
+				}
+			}
+			if n == 0 {
+				continue
+			}
+			var buf bytes.Buffer
+			if err := format.Node(&buf, p.Fset, f); err != nil {
+				continue
+			}
+			out[p.CompiledGoFiles[i]] = buf.Bytes()
+		}
+	}
+	return out
+}
+
 // applyRenames rewrites declaration and uses of each paired function to the reference name; returns the changed files.
 func applyRenames(pkgs []*packages.Package, pairs []renamePair, content func(string) []byte) map[string][]byte {
 	want := map[*types.Func]string{}
